@@ -37,3 +37,13 @@ Proof.
   rewrite <- HC. apply Forall_forall. exact Hcl.
 Qed.
 Print Assumptions E2E_declared_claims_follow_from_declared_axioms.
+
+(** the same for three concrete files: used by the regenerated Gen/ShippedProofs.v for every proof triple committed under /repo/proofs *)
+Definition is_some_state (o:option state) : bool := match o with Some _ => true | None => false end.
+Theorem E2E_accepted_claims_valid : forall g c p,
+  is_some_state (verify guards_sound g c p) = true -> Forall mvalid (gamma_axioms guards_sound g) ->
+  Forall mvalid (declared_claims guards_sound g c).
+Proof.
+  intros g c p H Hax. destruct (verify guards_sound g c p) as [st|] eqn:E; [|discriminate].
+  apply Forall_forall. exact (proj1 (Props.C01.C01_soundness g c p st E Hax)).
+Qed.
